@@ -16,7 +16,7 @@ from contracts.assumed_aio import _M, UserFn
 
 def sym_dict(run, label):
     d = LazyDict()
-    d.sym = SymMap.fresh(run, label)
+    d.sym = run.input_symmap(label)
     return d
 
 
